@@ -1,5 +1,7 @@
 import UsualProofs.C01.MoveDelta
 import UsualProofs.C01.LiftThm
+import UsualProofs.C01.StepStuck
+import UsualProofs.C01.StepFuel
 /-!
 # C19 — talloc memory limit is a hard cap whose accounting never drifts
 
@@ -20,8 +22,9 @@ and `Anc s a x` = "`a` is a proper ancestor of `x` along primary-parent pointers
 
 `Reach` = states reached from the empty heap by public operations whose arguments are live user
 objects and that keep the holder graph acyclic (`OpOK`, as in C01; every operation,
-`talloc_disable_null_tracking` included), with the two ghost flags of the model clear (they are printed on
-every state of every correspondence run and were never set).
+`talloc_disable_null_tracking` included).  The two ghost flags of the model (fuel exhausted, loop
+cursor lost) are proved never to be set (C01 `fuel_suffices`, `no_stuck`), so `Reach` carries no
+premise about them.
 -/
 namespace UsualProps.C19
 open Usual.C01
@@ -70,22 +73,24 @@ example :
 
 /-! ## the accounting invariant of the repaired code -/
 
-/-- states reachable by operations inside the quantifier (ghost flags clear) -/
+/-- states reachable by operations inside the quantifier -/
 inductive Reach : State → Prop
   | init : Reach {}
   | step (s : State) (op : Op) (rk : Nat → Nat) : Reach s → Ranked rk s → OpOK rk s op →
-      (step Cfg.fixed s op).1.oof = false → (step Cfg.fixed s op).1.stuck = false →
       Reach (step Cfg.fixed s op).1
 
 /-- what the induction over operation lists carries: structure, acyclicity, accounting, flags -/
-theorem reach_inv (s : State) (h : Reach s) : WF s ∧ (∃ rk, Ranked rk s) ∧ AcctInv s ∧ FlagsInv s := by
+theorem reach_inv (s : State) (h : Reach s) :
+    WF s ∧ (∃ rk, Ranked rk s) ∧ AcctInv s ∧ FlagsInv s ∧ s.stuck = false ∧ s.oof = false := by
   induction h with
-  | init => exact ⟨wf_empty, ⟨fun _ => 0, ranked_empty _⟩, af_empty.1, af_empty.2⟩
-  | step s op rk _ hrk hop hoof hstuck ih =>
-    obtain ⟨w, -, ac, fl⟩ := ih
+  | init => exact ⟨wf_empty, ⟨fun _ => 0, ranked_empty _⟩, af_empty.1, af_empty.2, rfl, rfl⟩
+  | step s op rk _ hrk hop ih =>
+    obtain ⟨w, -, ac, fl, hst, hoo⟩ := ih
+    have hoof := step_oof Cfg.fixed rfl op w hrk hop hst hoo
+    have hstuck := step_stuck Cfg.fixed rfl op w hrk hop hst hoof
     obtain ⟨h1, h2⟩ := step_wf Cfg.fixed rfl op w hrk hop hoof hstuck
     obtain ⟨h3, h4⟩ := step_acct op w hrk ⟨ac, fl⟩ hop hoof hstuck
-    exact ⟨h1, h2, h3, h4⟩
+    exact ⟨h1, h2, h3, h4, hstuck, hoof⟩
 
 /-- **cur_eq_charge** — THE accounting invariant, for every reachable state of the repaired
 code: every `.memlimit` chunk `l` of a context `ctx` records exactly the charge
@@ -163,15 +168,13 @@ any two reachable states that differ only in where one object hangs (`acct_move_
 covers talloc_reparent, the promotion to a referencing context and `throw_child`. -/
 theorem moved_in_charge_released (s : State) (h : Reach s) (rk : Nat → Nat) (hrk : Ranked rk s)
     (newp : Option Id) (o : Nat) (hop : OpOK rk s (.steal newp o))
-    (hoof : (step Cfg.fixed s (.steal newp o)).1.oof = false)
-    (hstuck : (step Cfg.fixed s (.steal newp o)).1.stuck = false)
     (l : Nat) (lb lb' : Obj) (ctx : Nat) (hl : s.get l = some lb) (hk : lb.kind = .limit)
     (hp : lb.parent = some ctx) (hl' : (step Cfg.fixed s (.steal newp o)).1.get l = some lb')
     (hctx : ¬ InSub s o ctx) (hlo : ¬ InSub s o l) :
     lb'.lcur + (if Anc s ctx o then subCharge s o else 0) =
       lb.lcur + (if Anc (step Cfg.fixed s (.steal newp o)).1 ctx o then subCharge s o else 0) := by
   obtain ⟨w, -, ac, -⟩ := reach_inv s h
-  obtain ⟨-, -, ac', -⟩ := reach_inv _ (Reach.step s _ rk h hrk hop hoof hstuck)
+  obtain ⟨-, -, ac', -⟩ := reach_inv _ (Reach.step s _ rk h hrk hop)
   obtain ⟨m, wr'⟩ := steal_movedRel Cfg.fixed w hrk newp o hop.1 hop.2.1 hop.2.2
   exact acct_move_delta m hrk wr' ac ac' l lb lb' ctx hl hk hp hl' hctx hlo
 
@@ -204,7 +207,7 @@ theorem limit_zero_lifts (s : State) (h : Reach s) (o : Nat) (fail : Bool)
         if ob'.useLim then limitsAbove Cfg.fixed f (step Cfg.fixed s (.setLimit o 0 fail)).1 ob'.parent else []) ∧
     (∀ (l : Nat) lb, (step Cfg.fixed s (.setLimit o 0 fail)).1.get l = some lb → lb.kind = .limit →
       lb.parent ≠ some o) := by
-  obtain ⟨w, ⟨rk, wr⟩, -, fl⟩ := reach_inv s h
+  obtain ⟨w, ⟨rk, wr⟩, -, fl, -, -⟩ := reach_inv s h
   obtain ⟨h1, ⟨ob', h2, h3, -⟩, h4⟩ := setLimit_lift_spec Cfg.fixed w wr fl o fail ho
   simp only [step]
   exact ⟨h1, ⟨ob', h2, h3, fun f => limitsAbove_no_limit Cfg.fixed f _ o ob' h2 h3⟩, h4⟩
